@@ -284,6 +284,11 @@ func (node *ListNode) ellipsisAnalysis(values map[string]interface{}) (int, int)
 			if v, ok := values[name]; ok {
 				ellipsisToFill = 1
 				ellipsisValue = v.(int)
+				if ellipsisValue < 0 || ellipsisValue > MAX_BYTE_SIZE {
+					// no list can hold more elements; a count outside the range was silently
+					// dropped (together with the other ellipses) or exhausted the memory
+					panic("ellipsis repeat count out of range")
+				}
 			} else {
 				ellipsisRemaining = 1
 			}
